@@ -306,7 +306,7 @@ class GraphQLSchema:
             extensions=deepcopy(self.extensions),
             ast_node=deepcopy(self.ast_node),
             extension_ast_nodes=deepcopy(self.extension_ast_nodes),
-            assume_valid=True,
+            assume_valid=self.assume_valid,
         )
 
     def get_root_type(self, operation: OperationType) -> GraphQLObjectType | None:
